@@ -186,3 +186,55 @@ fn inbound_decoding_chunking_size_limit_no_panic() {
     for f in fails.iter().take(30) { println!("BOUNDED-FAIL inbound_decoding_chunking_size_limit_no_panic {}", f); }
     assert!(fails.is_empty());
 }
+
+/// C03 at the engine's observation point ("packet events and errors of the engine on incoming data"): the packets surfaced and the
+/// final verdict for a byte stream do not depend on how the stream is cut into reads - in particular a well-formed packet that
+/// precedes a malformed one in the SAME read is surfaced exactly as when the two arrive in separate reads.
+#[test]
+fn engine_packet_events_and_verdict_are_chunking_invariant() {
+    use super::harness::*;
+    use crate::client::config::*;
+    use crate::protocol::*;
+    let thorough = super::tier_thorough();
+    let mut cases = 0u64; let mut fails: Vec<String> = Vec::new();
+    let none = OutboundAliasResolution::default();
+    let publish = |n: u8, qos: QualityOfService| MqttPacket::Publish(PublishPacket { packet_id: if qos == QualityOfService::AtMostOnce { 0 } else { n as u16 }, topic: format!("t/{}", n), qos, payload: Some(vec![n; 5]), ..Default::default() });
+    // tails: nothing, a second good packet, and malformed continuations
+    let tails: Vec<(&str, Vec<u8>)> = vec![
+        ("", vec![]),
+        ("reserved packet type 0", vec![0x00, 0x00]),
+        ("five-byte remaining length", vec![0x30, 0xFF, 0xFF, 0xFF, 0xFF, 0x01]),
+        ("PUBACK with bad flags", vec![0x4F, 0x02, 0x00, 0x01]),
+        ("truncated-looking SUBACK with reason 0xFF", vec![0x90, 0x04, 0x00, 0x09, 0x00, 0xFF]),
+        ("PINGRESP with a body", vec![0xD0, 0x01, 0x00]),
+    ];
+    for version in [ProtocolMode::Mqtt5, ProtocolMode::Mqtt311] { for qos in [QualityOfService::AtMostOnce, QualityOfService::AtLeastOnce, QualityOfService::ExactlyOnce] { for n_good in [1usize, 2] { for (tname, tail) in &tails {
+        let pv = if version == ProtocolMode::Mqtt5 { ProtocolVersion::Mqtt5 } else { ProtocolVersion::Mqtt311 };
+        let mut stream: Vec<u8> = Vec::new();
+        for i in 0..n_good { stream.extend(encode_with(&publish(1 + i as u8, qos), pv, none, &[1 << 20]).unwrap()); }
+        let good_len = stream.len();
+        stream.extend_from_slice(tail);
+        // chunkings: one read; split exactly between good part and tail; every single cut (thorough) or a few; 1-byte reads
+        let mut cuts: Vec<Vec<usize>> = vec![vec![], vec![good_len], (1..stream.len()).collect()];
+        let step = if thorough { 1 } else { 3 };
+        let mut c = 1; while c < stream.len() { cuts.push(vec![c]); c += step; }
+        let mut reference: Option<(Vec<String>, bool, String)> = None;
+        for cut in &cuts {
+            cases += 1;
+            let cfg = Cfg { policy: OfflineQueuePolicy::PreserveAll, drain: PostReconnectQueueDrainPolicy::None, mode: version, retries: None, keep_alive: None, ack_timeout: None };
+            let mut h = H::new(cfg);
+            if h.connect(false, None).is_err() { fails.push("setup".into()); continue; }
+            h.events.clear();
+            let mut bounds: Vec<usize> = cut.iter().copied().filter(|c| *c > 0 && *c < stream.len()).collect(); bounds.push(stream.len());
+            let mut at = 0; let mut verdict_err = false;
+            for b in bounds { if b <= at { continue; } let r = h.feed(&stream[at..b]); at = b; if r.is_err() { verdict_err = true; break; } }
+            let evs: Vec<String> = h.events.iter().map(|e| match e { PacketEvent::Publish(p) => format!("PUBLISH {} {:?}", p.topic, p.payload), PacketEvent::Connack(_) => "CONNACK".to_string(), PacketEvent::Disconnect(_) => "DISCONNECT".to_string() }).collect();
+            let obs = (evs, verdict_err, format!("{}", h.ps.state));
+            match &reference { None => reference = Some(obs), Some(r) => if *r != obs && fails.len() < 40 {
+                fails.push(format!("F-CHUNK-DISCARD {:?} qos {:?} {} good PUBLISH + tail [{}] cut at {:?}: surfaced {:?} error={} state={} - but in ONE read: surfaced {:?} error={} state={}", version, qos, n_good, tname, &cut[..cut.len().min(4)], obs.0, obs.1, obs.2, r.0, r.1, r.2)); } }
+        }
+    } } } }
+    println!("BOUNDED engine_packet_events_and_verdict_are_chunking_invariant cases={} bound=1-2 well-formed PUBLISH (QoS 0/1/2) followed by {{nothing, 5 malformed continuations}} x 2 protocol versions x {{one read, split at the packet boundary, every cut{}, 1-byte reads}}: packet events, error verdict and final state compared with the one-read run", cases, if thorough { "" } else { " (every 3rd in the quick tier)" });
+    for f in &fails { println!("BOUNDED-FAIL engine_packet_events_and_verdict_are_chunking_invariant {}", f); }
+    assert!(fails.is_empty());
+}
